@@ -101,7 +101,7 @@ func H_c06(p []int) {
 	for k := range bs {
 		vAssume(bs[k] != '\n')
 	}
-	vAssume(validUTF8(bs))
+	vAssumeValidUTF8(bs)
 	s := string(bs)
 	if kind == vkRegInt {
 		redact.RegisterSafeType(reflect.TypeOf(regInt(0)))
@@ -155,7 +155,7 @@ func H_c06s(p []int) {
 	for k := range bs {
 		vAssume(bs[k] != '\n')
 	}
-	vAssume(validUTF8(bs))
+	vAssumeValidUTF8(bs)
 	s := string(bs)
 	var x interface{}
 	if flavour == 0 {
